@@ -63,6 +63,9 @@ func puRandom(rng *rand.Rand) puScen {
 		// the bias option is +-0.38 flux quanta (a sign, not a magnitude): scaled to the fraction width, so that it
 		// stays below half a quantum as in every real configuration (0.38 * 2^16 for Abaco)
 		sc.BiasLevel = (24904 >> uint(16-sc.Frac)) * sc.PulseSign
+		if rng.Intn(3) == 0 { // the constructor takes bias level and pulse sign as independent arguments
+			sc.BiasLevel = -sc.BiasLevel
+		}
 	}
 	n := 20 + rng.Intn(250)
 	mode := rng.Intn(4)
@@ -115,7 +118,7 @@ func TestVerifPhase(t *testing.T) {
 				bias = int(u.upperStepLim) - (1 << uint(sc.Frac-sc.Drop-1))
 			}
 		}()
-		vEmit(vmap{"ev": "Config", "scen": i + 1, "origin": sc.Origin, "frac": sc.Frac, "drop": sc.Drop, "enable": sc.Enable, "bias": bias,
+		vEmit(vmap{"ev": "Config", "scen": i + 1, "origin": sc.Origin, "frac": sc.Frac, "drop": sc.Drop, "enable": sc.Enable, "bias": bias, "biaslevel": sc.BiasLevel,
 			"resetafter": sc.ResetAfter, "pulsepos": sc.PulseSign > 0, "invert": sc.Invert})
 		splits := append([][]int{{}}, sc.Splits...)
 		for _, sp := range splits {
